@@ -136,49 +136,49 @@ CLAIMS = {
     text="2..9 REAL serving nodes that all know each other run on the simulated network (virtual clock, per-datagram latency below 1 s, IPv4/IPv6, random and adversarially clustered ids, announce port set or not); announcing searches and searches by every other node in random order with gaps from seconds to more than 24 h. TLC checks the recording against spec/trace/NodeTrace.tla: from the announces each node ACKNOWLEDGED (its own reply, checked by the server rules) it derives when every other node's search must, and must no longer, yield the announcer's contact (IP with announce port or UDP source port).",
     design_ref='DESIGN.md §5 C01',
     note="Long runs are recorded in projection mode (only get_peers/announce_peer steps and search API lines). 'Found' is demanded for searches that start at least 1 s after the announcing search ended (its announce datagrams travel for less than 1 s).",
-    technique='TLC trace validation of recorded executions of real nodes against the TLA+ node-level specification'),
+    technique='TLA+ spec + TLC model checking (where a design-level model exists); TLC trace validation of recorded executions of real nodes'),
  "C02": dict(
-    category="exploration",
-    text='One real node searches cooperative oracle networks of 1..100 (thorough: 1000) scripted nodes that answer within one second with the truly closest nodes, tokens and stored peers. TLC follows every get_peers / response / yield / announce_peer of the recording: at the end of an announcing search the set of announce destinations must equal the 8 nodes of the declared universe closest to the info-hash (XOR order computed in TLA+), each announce carrying the token that very node sent, the searched hash, the own id and the configured / implied port; every peer of every consumed answer must have been delivered once per occurrence.',
+    category="model_checking",
+    text='spec/Lookup.tla (the search as a timed state machine: sorted candidates, ALPHA/BETA picks, distance to beat, 1.5 s time-outs, end-game, late answers, announce) is checked by TLC over EVERY environment of a cooperative family (all starting sets, all answer delays 0/999 ms, hence all arrival orders) for safety, the closest-nodes announce property and termination under fairness; a variant whose end-game skips unqueried nodes must be caught. Binding: one real node searches cooperative oracle networks of 1..100 (thorough: 1000) scripted nodes that answer within one second with the truly closest nodes, tokens and stored peers. TLC follows every get_peers / response / yield / announce_peer of the recording: at the end of an announcing search the set of announce destinations must equal the 8 nodes of the declared universe closest to the info-hash (XOR order computed in TLA+), each announce carrying the token that very node sent, the searched hash, the own id and the configured / implied port; every peer of every consumed answer must have been delivered once per occurrence.',
     design_ref='DESIGN.md §5 C02, §3.9',
     note='Universe placement: uniform / clustered around the target / around the searcher; serving and read-only searcher.',
-    technique='TLC trace validation of recorded executions of real nodes against the TLA+ node-level specification'),
+    technique='TLA+ spec + TLC model checking (where a design-level model exists); TLC trace validation of recorded executions of real nodes'),
  "C03": dict(
-    category="exploration",
-    text='The same recordings on hostile networks (loss, duplication, delays up to 5 s, forged responses: replayed id, right id from another source, id one byte too long, changed id, ids of earlier queries, node lists naming the searcher / duplicates / unreachable nodes; two concurrent searches). TLC keeps, per search, the outstanding queries and a budget of peers from consumed answers: every yielded address must come out of that budget; every announce must go to an address that answered THIS search with a token and carry its latest token, the searched hash, at most 8 per search, none when not requested.',
+    category="model_checking",
+    text='Design level: MC_Lookup (coop and timing families) checks YieldJustified / AnnounceOK on spec/Lookup.tla. Binding: the same recordings on hostile networks (loss, duplication, delays up to 5 s, forged responses: replayed id, right id from another source, id one byte too long, changed id, ids of earlier queries, node lists naming the searcher / duplicates / unreachable nodes; two concurrent searches). TLC keeps, per search, the outstanding queries and a budget of peers from consumed answers: every yielded address must come out of that budget; every announce must go to an address that answered THIS search with a token and carry its latest token, the searched hash, at most 8 per search, none when not requested.',
     design_ref='DESIGN.md §5 C03',
     note='A query stays outstanding until it is answered or the search ends (after the C01 repair the code accepts late answers as well); time-outs are read from hook H3 timer steps.',
-    technique='TLC trace validation of recorded executions of real nodes against the TLA+ node-level specification'),
+    technique='TLA+ spec + TLC model checking (where a design-level model exists); TLC trace validation of recorded executions of real nodes'),
  "C04": dict(
-    category="exploration",
-    text='Recordings on timing networks (total silence, answers after 0/1499/1500/1501/2999 ms, error replies, garbage, chains in which every answer names one closer node, send failures). TLC checks on every search: time-outs fire 1.5 s after the query, the end-game starts only when no query is outstanding, the search ends only when no unanswered query is younger than 1.5 s, no later than 1.5 s per distinct node it was told about plus 3 s, exactly 3 s after the first query when nobody answered, immediately when no good node is known, and every search has ended when the run ends.',
+    category="model_checking",
+    text='Design level: spec/Lookup.tla is checked by TLC over every environment of the timing family (each node answers after 0/1499/1500/1501/2999 ms or never, truthful lists or chains, unsendable datagrams): never an early close, closed within 1.5 s per node + 3 s, 3 s when silent, immediate when nothing can be asked, termination under fairness. Binding: recordings on timing networks (total silence, answers after 0/1499/1500/1501/2999 ms, error replies, garbage, chains in which every answer names one closer node, send failures). TLC checks on every search: time-outs fire 1.5 s after the query, the end-game starts only when no query is outstanding, the search ends only when no unanswered query is younger than 1.5 s, no later than 1.5 s per distinct node it was told about plus 3 s, exactly 3 s after the first query when nobody answered, immediately when no good node is known, and every search has ended when the run ends.',
     design_ref='DESIGN.md §5 C04',
     note="'No good node => immediate close' is checked for searches started after the initial bootstrap (scope note in DESIGN §5 C04). Slack 50 ms for the timer wheel.",
-    technique='TLC trace validation of recorded executions of real nodes against the TLA+ node-level specification'),
+    technique='TLA+ spec + TLC model checking (where a design-level model exists); TLC trace validation of recorded executions of real nodes'),
  "C11": dict(
     category="exploration",
     text='One real node with 1..12 scripted contacts (every partition into always-answering and silent-from-t, given directly or learned by hearsay, with and without searches, one contact unreachable for sending) runs for 1 h (thorough: 4 h) of virtual time; load_contacts() is sampled every 5 s and TLC checks on the recording: an always-answering contact is never missing once seen, is never questionable for more than 30 s (+5 s sampling slack), and a silent one is gone 20 min after its last answer or 5 min after it was last named.',
     design_ref='DESIGN.md §5 C11',
     note='Premises: loss-free network, no bucket full (at most 12 contacts in distinct buckets).',
-    technique='TLC trace validation of recorded executions of real nodes against the TLA+ node-level specification'),
+    technique='TLA+ spec + TLC model checking (where a design-level model exists); TLC trace validation of recorded executions of real nodes'),
  "C15": dict(
-    category="exploration",
-    text='Real nodes are started with builder configurations drawn from a seed (no contacts; 1..30 plain nodes some silent / erroring / answering garbage; a contact given both as node and as router; duplicated routers), outages from 0 s to 2 h with flapping, and 1..6 bootstrapped() callers registered before, during and after outages and re-bootstraps. TLC checks: the node stays alive (every API call completes), no contacts => immediately bootstrapped and no query is ever sent, bootstrapped() never resolves before a contact answered, and for plain-node configurations every waiter is told within 11 minutes of the network becoming reachable.',
+    category="model_checking",
+    text='Design level: spec/Handler.tla (event loop: timers, refresh chain, waiters, early-search queue) is checked by TLC over every interleaving of re-bootstraps, timers, waiters and searches (WaitersToldOnSuccess). Binding: Real nodes are started with builder configurations drawn from a seed (no contacts; 1..30 plain nodes some silent / erroring / answering garbage; a contact given both as node and as router; duplicated routers), outages from 0 s to 2 h with flapping, and 1..6 bootstrapped() callers registered before, during and after outages and re-bootstraps. TLC checks: the node stays alive (every API call completes), no contacts => immediately bootstrapped and no query is ever sent, bootstrapped() never resolves before a contact answered, and for plain-node configurations every waiter is told within 11 minutes of the network becoming reachable.',
     design_ref='DESIGN.md §5 C15',
     note='Routers are IP literals (no DNS in the sandbox).',
-    technique='TLC trace validation of recorded executions of real nodes against the TLA+ node-level specification'),
+    technique='TLA+ spec + TLC model checking (where a design-level model exists); TLC trace validation of recorded executions of real nodes'),
  "C16": dict(
-    category="exploration",
-    text='search() is called before the first datagram, during the initial round, during the bucket phase, during the back-off after a failed first attempt and after completion (1..4 early searches, the same hash with and without announce). TLC checks on the recording: a search is queued only before the initial bootstrap completed, starts only after it, is never closed without having been carried out, and an early non-announcing search yields the same multiset of peers as its twin issued right after bootstrapped() resolved.',
+    category="model_checking",
+    text='Design level: spec/Handler.tla is checked by TLC (NoLookupBeforeInitialBootstrap, QueuedAreStarted); the pinned-tree policy QueueEarly=FALSE must be caught. Binding: search() is called before the first datagram, during the initial round, during the bucket phase, during the back-off after a failed first attempt and after completion (1..4 early searches, the same hash with and without announce). TLC checks on the recording: a search is queued only before the initial bootstrap completed, starts only after it, is never closed without having been carried out, and an early non-announcing search yields the same multiset of peers as its twin issued right after bootstrapped() resolved.',
     design_ref='DESIGN.md §5 C16',
     note='The oracle network is static, so twin searches are comparable.',
-    technique='TLC trace validation of recorded executions of real nodes against the TLA+ node-level specification'),
+    technique='TLA+ spec + TLC model checking (where a design-level model exists); TLC trace validation of recorded executions of real nodes'),
  "C18": dict(
-    category="exploration",
-    text='The maintenance recordings (hundreds to thousands of re-bootstrap cycles, send failures) carry one RefreshRound line per round (hook H3) and one BootSuccess line per completion; TLC checks in sliding windows of 30 s, 2 min and 20 min that the number of rounds never exceeds one per 6 s plus one plus the number of completions in the window, and that every round is caused by the refresh timer or by a bootstrap completion.',
+    category="model_checking",
+    text='Design level: spec/Handler.tla is checked by TLC (AtMostOneRefreshTimer, RoundsBounded) over every interleaving of re-bootstraps and timers; the pinned-tree policy CancelPending=FALSE must be caught. Binding: The maintenance recordings (hundreds to thousands of re-bootstrap cycles, send failures) carry one RefreshRound line per round (hook H3) and one BootSuccess line per completion; TLC checks in sliding windows of 30 s, 2 min and 20 min that the number of rounds never exceeds one per 6 s plus one plus the number of completions in the window, and that every round is caused by the refresh timer or by a bootstrap completion.',
     design_ref='DESIGN.md §5 C18',
     note='A round that pings nobody is invisible on the wire, hence the hook.',
-    technique='TLC trace validation of recorded executions of real nodes against the TLA+ node-level specification'),
+    technique='TLA+ spec + TLC model checking (where a design-level model exists); TLC trace validation of recorded executions of real nodes'),
 }
 
 def main():
